@@ -360,8 +360,27 @@ impl Worker {
         }
         // ---- filtered, every subset of {r1, r2, r3, r4}
         let all = [r1(), r2(), r3(), r4()];
-        for mask in 0u32..16 {
-            let req: Vec<RollupId> = (0..4).filter(|i| mask & (1 << i) != 0).map(|i| all[i]).collect();
+        // every ordered selection without repetition (65 requests), plus each non-empty one with its
+        // first id repeated at the end; `mask` encodes the order in base 5 (digit = index + 1)
+        let mut orders: Vec<Vec<usize>> = vec![vec![]];
+        let mut frontier: Vec<Vec<usize>> = vec![vec![]];
+        while let Some(o) = frontier.pop() {
+            for i in 0..4 {
+                if !o.contains(&i) {
+                    let mut n = o.clone();
+                    n.push(i);
+                    orders.push(n.clone());
+                    frontier.push(n);
+                }
+            }
+        }
+        let dups: Vec<Vec<usize>> = orders.iter().filter(|o| !o.is_empty() && o.len() < 4).map(|o| { let mut n = o.clone(); n.push(o[0]); n }).collect();
+        orders.extend(dups);
+        orders.sort();
+        let natural: Vec<usize> = vec![0, 1, 2];
+        for order in &orders {
+            let mask: u32 = order.iter().fold(0u32, |acc, i| acc * 5 + (*i as u32 + 1));
+            let req: Vec<RollupId> = order.iter().map(|i| all[*i]).collect();
             rep.add("evaluations", 1);
             let raw_f = match self
                 .server
@@ -413,7 +432,7 @@ impl Worker {
                 return;
             }
             // tampering of the filtered form (only for the full request, to bound cost)
-            if mask == 0b0111 {
+            if *order == natural {
                 for (what, t) in tamper_filtered(&raw_f) {
                     rep.add("evaluations", 1);
                     rep.add("tamperings", 1);
@@ -660,7 +679,7 @@ fn verif_c07_serve() {
         "block shapes: per-rollup payload list from {{none, [0x00], [a], [a,a], [a,b]}} for 3 rollups x deposits {{none, 1, 2 to two \
          bridges, 2 to one bridge}} x {{one bundle, one transaction per item with rotating signers}} ({}: {} shapes), payloads \
          interleaved against rollup-id order; each block produced by the real CheckTx/PrepareProposal/FinalizeBlock/Commit and \
-         read back through the real gRPC server for the full block and every one of the 16 rollup-id subsets; oracle: decoded \
+         read back through the real gRPC server for the full block and every ordered selection of the 4 rollup ids (65 request orders, plus 40 with a repeated id); oracle: decoded \
          data == payloads in block order then deposits (reference derived from the included transactions), ids sorted = rollups \
          with data, header root == independently recomputed root, Celestia split verifies; every single-element tampering \
          (flip payload byte, swap, drop, append, relabel rollup id, move entry; for the proof-bound filtered and Celestia forms also swap proofs, flip audit-path byte) of \
